@@ -109,6 +109,9 @@ class EvalMixin:
             return v
         if isinstance(v, tuple):
             return tuple(self.import_value(x) for x in v)
+        import struct as _struct
+        if isinstance(v, _struct.Struct):
+            return v
         cache = self.p.__dict__.setdefault("import_cache", {})
         k = id(v)
         # keep the real object alive for the whole path: ids of dead objects are recycled
@@ -233,7 +236,7 @@ class EvalMixin:
         return self.p.alloc(HList(list(self.e_Tuple(n, fr))))
 
     def e_Set(self, n, fr):
-        vals = self.e_Tuple(n, fr)
+        vals = self.dedupe(self.e_Tuple(n, fr))
         if any(isinstance(v, (Sym, Ref)) for v in vals):
             return self.p.alloc(HList(list(vals)))
         return frozenset(vals)
@@ -299,8 +302,25 @@ class EvalMixin:
     def e_GeneratorExp(self, n, fr):
         return self.p.alloc(HList(self.comp(n, fr)))
 
+    def dedupe(self, items):
+        """set semantics for possibly symbolic elements: fork on pairwise equality"""
+        out = []
+        for x in items:
+            dup = False
+            for y in out:
+                r = self.compare_vals("Eq", x, y)
+                if r is True or (r is not False and self.p.branch(r)):
+                    dup = True
+                    break
+            if not dup:
+                out.append(x)
+        return out
+
     def e_SetComp(self, n, fr):
-        return self.p.alloc(HList(self.comp(n, fr)))
+        items = self.dedupe(self.comp(n, fr))
+        if any(isinstance(v, (Sym, Ref)) or (isinstance(v, tuple) and any(isinstance(u, (Sym, Ref)) for u in v)) for v in items):
+            return self.p.alloc(HList(items))
+        return frozenset(items)
 
     def e_DictComp(self, n, fr):
         out = []
@@ -561,6 +581,11 @@ class EvalMixin:
                 return self.import_value(getattr(v, name))
             except AttributeError:
                 raise PyExc(AttributeError)
+        import struct as _struct
+        if isinstance(v, _struct.Struct):
+            if name in ("size", "format"):
+                return getattr(v, name)
+            return BuiltinMethod(v, name)
         if isinstance(v, ExcVal):
             if name == "args":
                 return tuple(v.args)
